@@ -363,11 +363,18 @@ pub fn run_batch(
 ) -> BatchStats {
     let next = Arc::new(AtomicU64::new(first_index));
     let end = first_index + n;
+    // circuit breaker: a change that makes many runs hang (each costs a full watchdog period) or
+    // trap must not turn a check of minutes into one of hours - the property is violated already
+    let hangs = Arc::new(AtomicU64::new(0));
+    let findings_total = Arc::new(AtomicU64::new(0));
+    // in-process engines answer within milliseconds
+    let watchdog = if engine == "e2" { watchdog } else { watchdog.min(Duration::from_secs(20)) };
     let total = Arc::new(Mutex::new(BatchStats::default()));
     let mut handles = Vec::new();
     for _ in 0..n_workers {
         let (cfg, next, total) = (cfg.clone(), next.clone(), total.clone());
         let (engine, variant) = (engine.to_string(), variant.to_string());
+        let (hangs, findings_total) = (hangs.clone(), findings_total.clone());
         handles.push(std::thread::spawn(move || {
             let mut st = BatchStats::default();
             let mut w = Worker::spawn(&cfg);
@@ -376,6 +383,10 @@ pub fn run_batch(
                     if Instant::now() > d {
                         break;
                     }
+                }
+                if hangs.load(Ordering::SeqCst) >= 6 || findings_total.load(Ordering::SeqCst) >= 4000 {
+                    *st.probes.entry("batch_stopped_early_after_many_violations".into()).or_insert(0) += 1;
+                    break;
                 }
                 let i = next.fetch_add(1, Ordering::SeqCst);
                 if i >= end {
@@ -404,12 +415,14 @@ pub fn run_batch(
                                 st.samples.push(s);
                             }
                         }
+                        findings_total.fetch_add(r.violations.len() as u64, Ordering::SeqCst);
                         for v in r.violations {
                             st.findings.push(Finding { engine: engine.clone(), variant: variant.clone(), run_seed: seed, violation: v });
                         }
                     }
                     ExecResult::Trap(status, line) => {
                         st.runs += 1;
+                        findings_total.fetch_add(1, Ordering::SeqCst);
                         st.findings.push(Finding {
                             engine: engine.clone(),
                             variant: variant.clone(),
@@ -421,6 +434,7 @@ pub fn run_batch(
                     }
                     ExecResult::Hang => {
                         st.runs += 1;
+                        hangs.fetch_add(1, Ordering::SeqCst);
                         st.findings.push(Finding {
                             engine: engine.clone(),
                             variant: variant.clone(),
